@@ -139,6 +139,11 @@ def showEv : Ev → String
   | .body id k => "b" ++ toString id ++ "." ++ toString k
   | .runIf id k => "r" ++ toString id ++ "." ++ toString k
   | .diag id k j => "d" ++ toString id ++ "." ++ toString k ++ "." ++ toString j
+  | .plugCtor c => "P+" ++ toString c
+  | .plugCtorFailed c => "P!" ++ toString c
+  | .plugTearDown c => "P-" ++ toString c
+  | .testDiag j => "T" ++ toString j
+  | .callback j => "CB" ++ toString j
 
 def showPhaseRec (r : PhaseRec) : String :=
   "p" ++ toString r.id ++ ":" ++ showPO r.outcome ++ ":" ++ showRes r.result ++ ":" ++ showSub r.subtest ++ ":" ++
